@@ -258,14 +258,24 @@ Qed.
 
 Lemma get_mttkrp_factors_bridge U n ndims : get_mttkrp_factors U n ndims = H_mttkrp_factors U n ndims.
 Proof.
+  assert (A : forall l : list mat,
+    (if zlen l =? ndims then
+       if (0 <=? n) && (n <? ndims) then
+         if forallb (fun i_9 => idx_ok l i_9) (filter (fun i_9 => negb (i_9 =? n)) (np_arange 0 ndims)) then
+           if zlen (np_unique (map (fun i_9 => np_ncols (znth [] l i_9)) (filter (fun i_9 => negb (i_9 =? n)) (np_arange 0 ndims)))) >? 1
+           then Err else Ok l
+         else Err
+       else Err
+     else Err) = accept_factors l n ndims).
+  { intros l. unfold accept_factors, cols_agree, others.
+    destruct (zlen l =? ndims); cbn [andb]; [|reflexivity]. destruct ((0 <=? n) && (n <? ndims)); [|reflexivity].
+    destruct (forallb _ _); [|reflexivity]. destruct (_ >? 1); reflexivity. }
   unfold get_mttkrp_factors, H_mttkrp_factors, absorb_mode.
   destruct U as [k|l]; cbn [bind].
   - destruct (n =? 0).
-    + destruct (kt_redistribute_ok k 1); cbn [bind]; [|reflexivity].
-      destruct (zlen _ =? ndims); cbn [andb]; [|reflexivity]. destruct ((0 <=? n) && (n <? ndims)); reflexivity.
-    + destruct (kt_redistribute_ok k 0); cbn [bind]; [|reflexivity].
-      destruct (zlen _ =? ndims); cbn [andb]; [|reflexivity]. destruct ((0 <=? n) && (n <? ndims)); reflexivity.
-  - destruct (zlen l =? ndims); cbn [andb]; [|reflexivity]. destruct ((0 <=? n) && (n <? ndims)); reflexivity.
+    + destruct (kt_redistribute_ok k 1); cbn [bind]; [|reflexivity]. apply A.
+    + destruct (kt_redistribute_ok k 0); cbn [bind]; [|reflexivity]. apply A.
+  - apply A.
 Qed.
 
 (* ------------------------------------------------------------------------------------------ *)
